@@ -106,6 +106,26 @@ simple("C13", "exploration",
        batches=(8, 16))
 
 
+simple("C05", "exploration",
+       "systematic: one interference (mode in {none,0,2,3} x pwm in {none, 0..255 step 8 quick / step 1 thorough}) placed at cycle index {1,2,7,40} quick / 1..40 thorough for identity, "
+       "sparse README and idempotent quantiser maps, random curve trajectory and algorithm; plus seeded random 120-cycle histories with several interferences incl. interference in the "
+       "middle of a cycle (n-th file operation); oracle after the next complete cycle: manual mode, device PWM = map[nearest(request)], counter +1 iff the intruder left a different "
+       "PWM, +0 otherwise; non-trivial = history whose interference was actually applied; distinct by scenario hash",
+       TRUST_L1 + ["device reads back what was written (identity device, or idempotent nearest-level quantiser with the matching PWM map)",
+                   "counter exactness is only required for interference while the controller is quiescent (between cycles)"])
+
+
+simple("C04", "exploration",
+       "per fan range (8 fixed boundary ranges + seeded random ones; 12 quick / 400 thorough) and a maxPwmChangePerCycle m from {1,2,3,10,50,254,255,random}: the steady map S(c) of the "
+       "plain direct algorithm is observed for all 256 curve values (S(0)=min, S(255)=max, non-decreasing); then fresh controllers are started from device PWM x (13 boundary/random starts "
+       "quick, all 256 thorough) at constant curve c (all / every 5th resp. 3rd value) and run for ceil(255/m)+5 cycles: settled within ceil(255/m)+1 at S(c), |delta| <= m, monotone; "
+       "default PID with ticks {50,200,1000,2000} ms in virtual time from random starts and after adversarial histories (1-24 h idling at curve 0/255, alternating extremes, random walk, "
+       "steps): |request - S(c)| <= 1 in every cycle of [1200, 1500]; non-trivial = configuration/run that completed all clauses; distinct by (range, m) resp. (range, tick, c, history class, start)",
+       TRUST_L1 + ["liveness restated as bounded progress: N = 1200 cycles for the default PID (3x the worst settling observed on the unchanged algorithm), ceil(255/m)+1 for rate limits",
+                   "fan without RPM sensor, so that the stall logic does not interfere"],
+       batches=(12, 16), timeout=(900, 3400))
+
+
 def c14(p, tier, work, t0, replay):
     _src, vh = build_vh(work)
     q = tier == "quick"
